@@ -1,6 +1,7 @@
 //! One engine for all properties: generation through proptest (choice tape), execution with
 //! panic capture, shrinking, replay, known findings, evidence.  See DESIGN.md §2.2.
 
+pub mod fuzz;
 pub mod gen;
 pub mod run;
 
